@@ -120,7 +120,9 @@ if __name__ == "__main__":
         progs.append({"name": f"rb-{i}", "src": f"parser {{\n  b/{random_binary_regex(rng)}/;\n}}\n", "args": ["-feof-support"], "feats": {}})
     # regexes that failed once (fixed defects): always in the population
     for i, (form, r) in enumerate([("b", "ff([6f-92]+[^00-72][^2e-fe]{2,2})+"), ("b", "[^00-72][^2e-fe]|[^2e-fe]00"),
-                                   ("", "x[^a-z]*[^\\x00-`{-\\xff]y")]):
+                                   ("", "x[^a-z]*[^\\x00-`{-\\xff]y"),
+                                   # escaped backslashes and slashes, alone and inside a set
+                                   ("", "C:\\\\[a-z]+"), ("", "x[\\\\\\/]y"), ("", "a\\\\\\\\b"), ("", "[^\\\\]+\\\\"), ("", "\\/\\\\\\/")]):
         progs.insert(i, {"name": f"fixed-{i}", "src": f"parser {{\n  {form}/{r}/;\n}}\n", "args": ["-feof-support"], "feats": {}})
     for i, p in enumerate(progs):
         p["also_O3"] = (i % 4 == 0)
